@@ -29,7 +29,8 @@ FFLAGS = "-O1 -g -fno-omit-frame-pointer"
 DRV_FFLAGS = ["-O1", "-g", "-w", "-fno-omit-frame-pointer", "-ffree-line-length-none", "-fsanitize=address,undefined",
               "-fno-sanitize-recover=undefined"]
 DRV_SRC = ["c20f_drv.f90", "c20f_mll1.f90", "c20f_mll2.f90", "c20f_mll3.f90", "c20f_cgio.f90", "c20f_extra.f90", "c20f_dl2.f90",
-           "c20f_goto20.f90", "c20f_impl.f90", "c20f_main.f90"]
+           "c20f_goto20.f90", "c20f_impl.f90", "c20f_mod2.f90",
+           "c20f_main.f90"]
 DL = [1, 8, 31, 32, 33, 40, 80]
 # declared lengths per argument of the dl2_* operations (harness/c20f_dl2.f90): all orderings of three distinct lengths
 TRIPLES = [(8, 32, 40), (8, 40, 32), (32, 8, 40), (32, 40, 8), (40, 8, 32), (40, 32, 8), (1, 33, 80), (80, 31, 1)]
@@ -38,7 +39,7 @@ MIRROR = {1: 3, 2: 5, 3: 1, 4: 6, 5: 2, 6: 4, 7: 8, 8: 7}          # the triple 
 # other case, trailing / leading blanks, blank-only, empty
 TERM_FAMILY = [b"end", b"END", b"endwall", b"END2", b"en", b"End", b"end cap", b"ENDPLATE", b"e", b"endend", b"Wall", b"end ", b"END   ",
                b"endwall  ", b"   ", b" ", b"", b" lead", b"enD"]
-CHECKER = ("make -C coq Ftoc.vo FtocAbi.vo FtocAbiProofs.vo FtocGoto.vo FtocGotoProofs.vo Gen_C20f.vo (coqc 8.16.1 kernel, vm_compute on the regenerated "
+CHECKER = ("make -C coq Ftoc.vo FtocAbi.vo FtocAbiProofs.vo FtocGoto.vo FtocGotoProofs.vo FtocMod.vo FtocModProofs.vo Gen_C20f.vo (coqc 8.16.1 kernel, vm_compute on the regenerated "
            "interface table) ; coqc Properties_C20f.v (Print Assumptions)")
 ORACLE = ("Fortran program (gfortran-12, use cgns) == C harness in wrapper mode == C harness in direct mode: status, outputs, "
           "guard bytes, file tree; ASan/UBSan; every interface body links")
@@ -152,6 +153,24 @@ def gen_linkall(ifaces, implicit_names, path):
     if not os.path.exists(path) or open(path).read() != txt:
         open(path, "w").write(txt)
     return names, skipped
+
+
+def documented_call_compiles(proc, c_params, work):
+    """the call a user writes from the documentation -- one actual argument per parameter of the C function, then ier -- against
+    the module: does it compile?  (for a module procedure whose number of dummies is not that of the C function + 1)"""
+    decl = {"TInt": "integer", "TIntP": "integer", "TSize": "integer(cgsize_t)", "TSizeP": "integer(cgsize_t)", "TEnum": "integer(cgenum_t)",
+            "TEnumP": "integer(cgenum_t)", "TDouble": "real(c_double)", "TDoubleP": "real(c_double)", "TFloat": "real(c_float)", "TFloatP": "real(c_float)",
+            "TStr": "character(len=32)", "TStrP": "character(len=32)", "TVoidP": "real(c_double)"}
+    ds, args = [], []
+    for k, c in enumerate(c_params):
+        if c not in decl:
+            return None, "parameter class %s" % c
+        ds.append("  %s :: a%d" % (decl[c], k)); args.append("a%d" % k)
+    src = os.path.join(work, "c20f_doc_%s.f90" % proc)
+    open(src, "w").write("subroutine s()\n  use iso_c_binding\n  use cgns\n  implicit none\n%s\n  integer :: ier\n  call %s(%s, ier)\nend subroutine\n" % (
+        "\n".join(ds), proc, ", ".join(args)))
+    rc, out = vlib.sh([GFORTRAN, "-w", "-c", "-I" + os.path.join(IMPLF, "src"), "-J" + work, src, "-o", src[:-4] + ".o"], cwd=work)
+    return rc == 0, out[-600:]
 
 
 def run_linkall(ifaces, implicit_names, work):
@@ -506,6 +525,80 @@ def gen_implicit_script(rng, stats):
     return s
 
 
+def _modout_base(H):
+    return ["open w", "base %s 3 3" % H(b"Base"), "zone %s 1 s 3" % H(b"Z1"), "family_write 1 %s" % H(b"Fam"), "family_write 1 %s" % H(b"Fam2"), "close", "open m"]
+
+
+def _fam_path(rng, n):
+    parts, cur = [], 0
+    while cur < n:
+        k = min(rng.randint(3, 32), n - cur)
+        parts.append(bytes(rng.choice(C20.ALNUM) for _ in range(k)))
+        cur += k + 1
+    return b"/".join(parts)[:n]
+
+
+def gen_famname_script(rng, stats):
+    """family names whose family is a PATH longer than 32 characters (the C side allows 20 x 33): cg_family_name_read_f"""
+    H = hx
+    s = _modout_base(H)
+    lens = [rng.choice([5, 31, 32]), 33, rng.choice([40, 65, 73, 100]), rng.choice([200, 400, 659])]
+    for k, L in enumerate(lens):
+        s.append("family_name_write 1 1 %s %s" % (H(("FN%d" % k).encode() + b" " * rng.choice([0, 3])), H(_fam_path(rng, L))))
+    s.append("nfamily_names 1 1")
+    for k, L in enumerate(lens):
+        s.append("family_name_read 1 1 %d %d %d" % (k + 1, rng.choice([8, 32, 33]), rng.choice([L - 1, L, L + 1, L + 20, 700])))
+    return s + ["close"]
+
+
+def gen_nodefam_script(rng, stats):
+    H = hx
+    s = _modout_base(H) + ["goto 1 Family_t %d" % rng.choice([1, 2])]
+    lens = [rng.choice([4, 32]), rng.choice([33, 64]), rng.choice([73, 150, 660])]
+    for k, L in enumerate(lens):
+        s.append("node_family_name_write %s %s" % (H(("NF%d" % k).encode()), H(_fam_path(rng, L))))
+    s.append("node_nfamily_names")
+    for k, L in enumerate(lens):
+        s.append("node_family_name_read %d %d %d" % (k + 1, rng.choice([8, 32, 40]), rng.choice([L, L + 1, 700])))
+    return s + ["close"]
+
+
+def gen_modout_script(rng, stats):
+    """output arguments of Fortran-implemented wrappers: cg_discrete_ptset_write_f, the ParticleZone_t family (names of up to 32
+    characters read into variables of every length, blank before the call as a caller usually has them), cg_particle_model_read_f"""
+    H = hx
+    nm = lambda k: bytes(rng.choice(C20.ALNUM) for _ in range(k))
+    pz, pc, cx, ps, pfn, pit = nm(rng.choice([8, 16, 32])), nm(rng.choice([12, 32])), b"CoordinateX", nm(rng.choice([10, 31])), nm(rng.choice([8, 32])), nm(rng.choice([9, 32]))
+    s = _modout_base(H)
+    s += ["discrete_ptset_write 1 1 %s 2 2 2 6 1 1 1 2 2 2" % H(b"Dsc"), "discrete_ptset_write 1 1 %s 2 2 1 3 3 3 3" % H(nm(12) + b"  "), "discrete_ptset_info 1 1 2",
+          "ndiscrete 1 1" if False else "discrete_read 1 1 2 32",
+          "particle_write 1 %s 5" % H(pz + b" "), "particle_write 1 %s 3" % H(nm(20)), "nparticle_zones 1",
+          "pcoord_node_write 1 1 %s" % H(pc), "pcoord_write 1 1 4 %s" % H(cx), "psol_write 1 1 %s" % H(ps), "pfield_write 1 1 1 4 %s" % H(pfn),
+          "piter_write 1 1 %s" % H(pit),
+          "goto 1 ParticleZone_t 1", "pequationset_write 3", "gotov 1 2 %s 1 %s 1" % (H(b"ParticleZone_t"), H(b"ParticleEquationSet_t")),
+          "pmodel_write %s 2" % H(b"ParticleCollisionModel_t"), "pmodel_read %s" % H(b"ParticleCollisionModel_t"), "pmodel_read %s" % H(b"ParticleForceModel_t  "),
+          # output variables at least as long as the name (+1), filled: safe on any code
+          "particle_read 1 1 %d" % rng.choice([33, 40, 64]), "pcoord_node_read 1 1 1 40", "pcoord_info 1 1 1 33", "psol_info 1 1 1 64", "pfield_info 1 1 1 1 40",
+          "piter_read 1 1 33", "fill 32"]
+    # blank variables of every length (the usual state of an output variable), then short filled ones
+    probes = [("particle_read 1 1 %d", pz), ("pcoord_node_read 1 1 1 %d", pc), ("pcoord_info 1 1 1 %d", cx), ("psol_info 1 1 1 %d", ps),
+              ("pfield_info 1 1 1 1 %d", pfn), ("piter_read 1 1 %d", pit)]
+    rng.shuffle(probes)
+    for fmt, name in probes[:3]:
+        s.append(fmt % rng.choice([32, 40, len(name), len(name) + 1]))
+    s.append("fill 126")
+    for fmt, name in probes[3:]:
+        s.append(fmt % rng.choice([1, 8, max(1, len(name) - 1)]))
+    return s + ["close"]
+
+
+def gen_configure_script(rng, stats):
+    """cg_configure_f with C_LOC of an INTEGER(C_INT) (int-valued options) or of an INTEGER(C_SIZE_T)"""
+    s = ["configure_size 204 %d" % rng.choice([1048576, 4096]), "configure 2 %d" % rng.choice([0, 1]), "configure 5 %d" % rng.choice([1, 2]),
+         "configure 201 %d" % rng.choice([0, 6]), "configure 203 0", "configure 205 1", "configure_size 207 2048", "configure 1000 1"]
+    return s
+
+
 def gen_twofile_script(rng, stats):
     """two files open at once: the position is in one, cg_gorel_f / cg_goto_f / node-context calls get the OTHER handle"""
     s = ["open w", "base %s 3 3" % hx(b"BaseA"), "zone %s 1 s 3" % hx(b"ZA"), "sol_write 1 1 %s 2" % hx(b"SolA"),
@@ -601,7 +694,8 @@ def c20_script(gen_name):
 
 GENERATORS = [("mll", c20_script("gen_mll_script")), ("cgio", c20_script("gen_cgio_script")),
               ("modproc", gen_modproc_script), ("dlio", gen_dlio_script), ("goto", gen_goto_script), ("deep", gen_deep_script), ("implicit", gen_implicit_script), ("twofile", gen_twofile_script),
-              ("multichar", gen_multichar_script)]
+              ("multichar", gen_multichar_script), ("famname", gen_famname_script), ("nodefam", gen_nodefam_script), ("modout", gen_modout_script),
+              ("configure", gen_configure_script)]
 
 
 # ------------------------------------------------------------------------------------------------ three-way runs
@@ -674,13 +768,52 @@ def terminator_like(l):
     return fc1 != c
 
 
+K_FAMNAME = "cgns_f.F90:cg_family_name_read_f:family-path-buffer-33-bytes"
+K_NODEFAM = "cgns_f.F90:cg_node_family_name_read_f:family-path-buffer-33-bytes"
+K_PTSET_D = "cgns_f.F90:cg_discrete_ptset_write_f:output-D-never-assigned"
+K_COORDID = "cgns_f.F90:cg_coord_id_f:coord_id-is-not-a-dummy-argument"
+K_CONFIG = "cg_ftoc.c:cg_configure_c_ptr:reads-size_t-through-pointer-to-int"
+K_PMODEL = "cgns_f.F90:cg_particle_model_read_f:ModelLabel-never-passed-to-C"
+K_PBUF = "cgns_f.F90:particle-read-procedures:C-buffer-sized-from-callers-variable"
+PBUF_OPS = ("particle_read", "pcoord_node_read", "pcoord_info", "psol_info", "pfield_info", "piter_read")
+# the known-divergence predicates below are DISABLED per key once the repair is in /repo (set to False by the lead's word)
+KNOWN_ACTIVE = {K_FAMNAME: True, K_NODEFAM: True, K_PTSET_D: True, K_CONFIG: True, K_PMODEL: True, K_PBUF: True}
+
+
+def known_crash(next_op, outcome):
+    """the Fortran program died (sanitizer report / signal) on next_op: canonical key when this is a defect handed to the lead"""
+    t = (next_op or "").split()
+    if not t:
+        return None
+    bad = outcome.startswith(("asan:", "ubsan:", "signal:"))
+    if t[0] == "family_name_read" and bad and KNOWN_ACTIVE[K_FAMNAME]:
+        return K_FAMNAME
+    if t[0] == "node_family_name_read" and bad and KNOWN_ACTIVE[K_NODEFAM]:
+        return K_NODEFAM
+    if t[0] == "configure" and outcome.startswith("asan:heap-buffer-overflow") and KNOWN_ACTIVE[K_CONFIG]:
+        return K_CONFIG
+    if t[0] in PBUF_OPS and bad and KNOWN_ACTIVE[K_PBUF]:
+        return K_PBUF
+    return None
+
+
 def known_divergence(op, F, w, d, susp=False):
     """canonical keys of divergences listed as `known:` in KNOWN_FINDINGS.txt.  F: Fortran program, w: C harness wrapper
     mode, d: direct C call; susp: a go-to since the position was last set anew had a label on which the terminator test of
     the OLD cg_goto_fc1 / cg_gorel_fc1 and that of cg_goto / cg_gorel differ (terminator_like).
     None: both defects found by this layer are repaired in /repo -- C_F_string (40e726e, witness corpus/C20f/
     cf_string_last_char.script) and the path-terminator test of cg_goto_fc1 / cg_gorel_fc1 (bbec569, key GOTO_KEY, witness
-    corpus/C20f/goto_fc1_terminator.script): a regression of either is an ordinary VIOLATION."""
+    corpus/C20f/goto_fc1_terminator.script): a regression of either is an ordinary VIOLATION.
+    Round 5 (notes/C20f.md, notes/C20-fixes/02..06), each switched off by KNOWN_ACTIVE once repaired."""
+    t = (op or "").split()
+    if not t or F is None or w is None or d is None or w != d or F == d:
+        return None
+    if t[0] == "discrete_ptset_write" and KNOWN_ACTIVE[K_PTSET_D] and " D=-1" in F and re.search(r" D=[1-9]", d) and F.replace(" D=-1", "") == re.sub(r" D=\d+", "", d):
+        return K_PTSET_D
+    if t[0] == "pmodel_read" and KNOWN_ACTIVE[K_PMODEL] and " ier=0" in d and " ier=0" not in F:
+        return K_PMODEL
+    if t[0] in PBUF_OPS and KNOWN_ACTIVE[K_PBUF] and " ier=0" in d:
+        return K_PBUF
     return None
 
 
@@ -706,11 +839,21 @@ def three_fails(exes, script, work, tag, backend, known_out=None):
         return None, {"reference_run_outcome": co, "last": cl[-2:]}
     if fo_ != "ok":
         return True, {"side": "C harness wrapper mode", "wrapper_run_outcome": fo_, "after": fl[-2:]}
+    crashed = None
     if Fo != "ok":
-        return True, {"side": "Fortran program", "fortran_run_outcome": Fo, "after": Fl[-2:],
-                      "next_op": script[len(Fl)] if len(Fl) < len(script) else None}
+        nxt = script[len(Fl)] if len(Fl) < len(script) else None
+        key = known_crash(nxt, Fo)
+        if not key:
+            return True, {"side": "Fortran program", "fortran_run_outcome": Fo, "after": Fl[-2:], "next_op": nxt}
+        if known_out is not None and key not in known_out:
+            known_out[key] = {"backend": backend, "script": script[:len(Fl) + 1], "op": nxt, "fortran": "<%s>" % Fo, "wrapper_mode": fl[len(Fl)] if len(Fl) < len(fl) else None,
+                              "reference": cl[len(Fl)] if len(Fl) < len(cl) else None, "rank": 1}
+        crashed = len(Fl)
     tainted = seen_known = susp = False # after a KNOWN divergence of a go-to the position differs: what follows, up to the next
-    for i in range(max(len(Fl), len(fl), len(cl))):   # operation that sets the position anew, is a consequence, not a new failure
+    if crashed is not None:
+        seen_known = True
+    for i in range(max(len(Fl), len(fl), len(cl)) if crashed is None else crashed):   # (what follows a known go-to divergence up to the
+        # next operation that sets the position anew is a consequence, not a new failure; nothing is compared after a known crash)
         F = norm(Fl[i]) if i < len(Fl) else None
         w = norm(fl[i]) if i < len(fl) else None
         d = norm(cl[i]) if i < len(cl) else None
@@ -731,6 +874,8 @@ def three_fails(exes, script, work, tag, backend, known_out=None):
                     known_out[key] = {"backend": backend, "script": script[:i + 1], "op": op, "fortran": F, "wrapper_mode": w, "reference": d,
                                       "rank": rank}
             tainted = seen_known = True
+            if key == K_PBUF:
+                return False, None          # the C function wrote past a too small stack buffer: nothing after it is meaningful
             continue
         return True, {"line": i, "op": op, "c_op": cscript[i] if i < len(cscript) else None, "fortran": F, "wrapper_mode": w, "direct_mode": d}
     for k in range(3 if not seen_known else 0):
@@ -756,7 +901,7 @@ def fail_class(detail):
 
 
 # ------------------------------------------------------------------------------------------------ the check
-MY_COQ = r"(FtocAbi|FtocAbiProofs|FtocGoto|FtocGotoProofs|Properties_C20f|Gen_C20f)\.v"
+MY_COQ = r"(FtocAbi|FtocAbiProofs|FtocGoto|FtocGotoProofs|FtocMod|FtocModProofs|Properties_C20f|Gen_C20f)\.v"
 LINK_KEYS = {"cg_field_id_f_": "cgns_f.F90:cg_field_id_f:link-name-has-no-definition",
              "cg_1to1_id_f_": "cgns_f.F90:cg_1to1_id_f:link-name-has-no-definition",
              "cg_state_size_f_": "cgns_f.F90:cg_state_size_f:link-name-has-no-definition"}
@@ -778,6 +923,16 @@ def coq_bad_rows(work):
     p = os.path.join(work, "c20f_bad.v")
     open(p, "w").write("From Coq Require Import List String.\nFrom CgnsV Require Import Ftoc FtocAbi Gen_C20f.\n"
                        "Eval vm_compute in (abi_bad_rows abi_table).\n")
+    with vlib.Lock("coq"):
+        rc, out = vlib.sh(["timeout", "600", "coqc", "-Q", vlib.COQ, "CgnsV", "-w", vlib.COQ_WARN, p], cwd=work)
+    if rc != 0:
+        return None, out[-800:]
+    return sorted(set(re.findall(r'"([^"]+)"%string', out))), None
+
+
+def coq_mp_bad_rows(work):
+    p = os.path.join(work, "c20f_mpbad.v")
+    open(p, "w").write("From Coq Require Import List String.\nFrom CgnsV Require Import Ftoc FtocMod Gen_C20f.\nEval vm_compute in (mp_bad_rows mp_rows).\n")
     with vlib.Lock("coq"):
         rc, out = vlib.sh(["timeout", "600", "coqc", "-Q", vlib.COQ, "CgnsV", "-w", vlib.COQ_WARN, p], cwd=work)
     if rc != 0:
@@ -863,7 +1018,12 @@ def run_extra(ck, standalone=False):
     bad, err = coq_bad_rows(ck.work)
     ex["rows_failing_abi_ok"] = bad if bad is not None else "could not be evaluated: %s" % err
     known_static = {"cg_bcdataset_info_f"}
-    new_bad = [b for b in (bad or []) if b not in known_static]
+    mbad, merr = coq_mp_bad_rows(ck.work)
+    ex["rows_failing_mp_ok"] = mbad if mbad is not None else "could not be evaluated: %s" % merr
+    MP_KNOWN = {"cg_coord_id_f", "cg_discrete_ptset_write_f", "cg_family_name_read_f", "cg_node_family_name_read_f", "cg_particle_read_f",
+                "cg_particle_coord_node_read_f", "cg_particle_coord_info_f", "cg_particle_sol_info_f", "cg_particle_field_info_f", "cg_piter_read_f",
+                "cg_particle_model_read_f"}
+    new_bad = [b for b in (bad or []) if b not in known_static] + [b for b in (mbad or []) if b not in MP_KNOWN]
     ex["static_findings"] = [{"row": b, "listed_in": "FtocAbi.abi_known"} for b in (bad or []) if b in known_static]
     ex["goto_terminator_tests_not_of_the_repaired_shape"] = [k for k, v in (info.get("goto_terminator_tests") or {}).items()
                                                              if (v["cmp"], v["blank_test"], v["empty_test"]) != ("CmpExact", False, True)]
@@ -894,6 +1054,17 @@ def run_extra(ck, standalone=False):
     if la["compile_errors"]:
         viol({"level": "linkall-compile", "oracle": "one call per interface body, generated from the parsed interface, compiles",
                       "compiler_output": la["compile_errors"][-2000:]}, nofail=True)
+
+    # ---- a module procedure with fewer / more dummies than the C function has parameters (+ ier): the documented call must compile
+    ex["modproc"] = {"rows": info.get("modproc_rows"), "notes": info.get("modproc_notes")}
+    for am in (info.get("modproc_notes") or {}).get("arity_mismatch", []):
+        okc, outc = documented_call_compiles(am["proc"], am["c_params"], ck.work)
+        ck.cov["evaluations"] += 1
+        if okc is False:
+            key = K_COORDID if am["proc"] == "cg_coord_id_f" else "cgns_f.F90:%s:documented-call-does-not-compile" % am["proc"]
+            ck.finding(key, {"level": "modproc-arity", "procedure": am["proc"], "c_function": am["cfunc"], "dummies": am["dummies"], "c_parameters": len(am["c_params"]),
+                             "oracle": "the call with one actual argument per parameter of the C function, then ier, compiles against the module",
+                             "compiler_output": outc})
 
     # ---- three-way scenarios
     stats = {"kind": {}, "len": {}}
